@@ -33,7 +33,7 @@ META = {
                'thorough': 'LHS N=4 x 2, N=3 x 3; digit law bases 2..13 with 10/7/6/5/4/4 digits; Halton 50 x 4, 3 x 5..8, unit sequence for every dimension 1..200; grid k<=4, n<=3'},
     'stubs': ['numpy RandomState.rand -> fresh reals in [0,1); RandomState.permutation -> symbolic permutation (forking)',
               'np.zeros_like on object arrays -> object arrays', 'random.random (artap.utils) -> fresh real in [0,1)'],
-    'assumptions': ['floats as reals; strata borders are the doubles of np.linspace; Halton unit samples compared at 1e-12',
+    'assumptions': ['boxes of positive width lb < ub (strata and grids of a zero-width box collapse; outside)', 'floats as reals; strata borders are the doubles of np.linspace; Halton unit samples compared at 1e-12',
                     'other LHS criteria (center, maximin, ...) are not reachable from LHSGenerator and outside',
                     'LHS sample counts beyond the bound outside; the digit law covers every index below b^K only'],
 }
